@@ -94,7 +94,7 @@ func init() {
 
 func TestC15(t *testing.T) {
 	defer silenceAs("aliases")()
-	col := evid.New("C15", "aliases", "programs that copy a number/string/boolean along a random data-flow shape (variable -> variable, argument -> parameter, element of an array literal, object field -> variable, one literal -> two variables, loop variable) and then apply ++ -- += -= *= /= to exactly one copy, inside a 1-5 iteration loop and over 3 consecutive runs of one evaluator; source values: integer literals on both sides of 65534, floats, strings, fields, SetVariable values; oracle: reference interpreter with value semantics for every run (result observes every copy, the field, and the literal re-evaluated) plus all variables; non-trivial = >=2 names hold the same value when the mutation happens; distinct by script + inputs")
+	col := evid.New("C15", "aliases", "programs that copy a number/string/boolean along a random data-flow shape (variable -> variable, argument -> parameter, element of an array literal, object field -> variable, one literal -> two variables, loop variable, the same argument to two parameters, a returned value waiting on the caller's stack while another call steps its source, foreach index/element copied out of an iteration) interleaved with ++ -- += -= *= /= on one copy at a time, inside a 1-5 iteration loop and over 3 consecutive runs of one evaluator; source values: integer literals on both sides of 65534, floats, strings, fields, SetVariable values; oracle: reference interpreter with value semantics for every run (result observes every copy, the field, and the literal re-evaluated) plus all variables; objects returned to the host by earlier runs are re-read after later runs; non-trivial = >=2 names hold the same value when the mutation happens; distinct by script + inputs")
 	replayKnown(t, col, "C15")
 	rapidCheck(t, col, func(rt *rapid.T) {
 		c := &MultiCase{Prop: "C15", Kind: "aliases", Vars: map[string]lang.Value{}, Obj: &eng.ObjSpec{Mode: rapid.SampledFrom([]string{"map", "struct", "ptr"}).Draw(rt, "mode")}}
